@@ -7,6 +7,7 @@ must agree (NaN == NaN; a zero division gives NaN deferred and raises immediatel
 attributes were changed through the manager, again when the same string is evaluated a second time after a change, and
 expressions that differ only in a literal must not be confused.
 """
+import copy
 import itertools
 import math
 import os
@@ -158,11 +159,12 @@ def precedence_cases():
 def main():
     rac = Rac("C19")
     quick = rac.tier == "quick"
-    changes = [("a", 4.0), ("z", 2.0), ("b", 0.0), ("c.d", -1.25)]
+    # (the first two changes assign a number that compares == to the stored one but is a different number: -0.0 over 0.0, 3.0 over the integer 3)
+    changes = [("z", -0.0), ("n", 3.0), ("a", 4.0), ("z", 2.0), ("b", 0.0), ("c.d", -1.25)]
     rac.section("grammar", "strings derivable from the MAD-X grammar to depth 2 (quick) / 3 (atoms: NUMBER forms, dotted variable names, "
                 "element->attribute, undefined variable; unary signs, parentheses, 1- and 2-argument calls, + - * / ^ ** on "
                 "parenthesised operands): deferred value == immediate value == Python on the fully parenthesised mirror (NaN "
-                "deferred where division by zero raises), initially and after each of 4 changes made through the manager, with "
+                "deferred where division by zero raises), initially and after each of 6 changes made through the manager (two of them to a number that compares equal to the stored one: -0.0 over 0.0, 3.0 over 3), with "
                 "the same string re-evaluated immediately after the change; non-trivial = the string contains an operator",
                 f"depth<={2 if quick else 3}")
     cases = gen(2 if quick else 3)
@@ -181,25 +183,61 @@ def main():
             continue
         steps = [("initially", None)] + [(f"after {k} = {v}", (k, v)) for k, v in changes]
         bad = None
+        # the Python side reads its OWN record of the assigned values (not the containers the manager writes)
+        ns = copy.deepcopy(pyns(env))
+        scr += "import copy\nns = copy.deepcopy(pyns(env))\n"
         for label, ch in steps:
             if ch is not None:
                 env._vref[ch[0]] = ch[1]
                 env._eref["q1"]["k1"] = env._elements["q1"]["k1"] + 1.0
-                scr += f"env._vref[{ch[0]!r}] = {ch[1]!r}; env._eref['q1']['k1'] = env._elements['q1']['k1'] + 1.0\n"
+                ns[ch[0].replace(".", "_dot_")] = ch[1]
+                ns["el_q1"]["k1"] = ns["el_q1"]["k1"] + 1.0
+                scr += f"env._vref[{ch[0]!r}] = {ch[1]!r}; env._eref['q1']['k1'] = env._elements['q1']['k1'] + 1.0; ns[{ch[0].replace('.', '_dot_')!r}] = {ch[1]!r}; ns['el_q1']['k1'] += 1.0\n"
             try:
                 d = num(val(ex))
             except Exception as e2:     # noqa
                 d = type(e2).__name__
-            vals = three(env, s, mirror, pyns(env))
-            scr += f"vals = three(env, s, mirror, pyns(env)); print({label!r}, vals); assert agree(vals, {("^" in s or "**" in s)!r}, nan_mirror(mirror, pyns(env))), ({label!r}, vals)\n"
+            vals = three(env, s, mirror, ns)
+            scr += f"vals = three(env, s, mirror, ns); print({label!r}, vals); assert agree(vals, {("^" in s or "**" in s)!r}, nan_mirror(mirror, ns)), ({label!r}, vals)\n"
             hp = "^" in s or "**" in s
-            expct = nan_mirror(mirror, pyns(env))
+            expct = nan_mirror(mirror, ns)
             if not agree(vals, hp, expct) or not agree([d, vals[1]], hp, expct):
                 bad = (label, [d] + vals)
                 break
         rac.case(s, nontrivial=any(c in s for c in "+-*/^("), sample=s)
         if bad:
             rac.fail("grammar " + s, f"C19 {s!r} {bad[0]}: expression built earlier / deferred / immediate / Python give {bad[1]}", scr, "MadxEval")
+    rac.section("equal-valued-changes", "variables changed through the manager to a number that compares == to the stored one but is a different number "
+                "(-0.0 <-> 0.0: visible through atan2; int <-> float of the same value: integer arithmetic is exact beyond 2**53), interleaved with "
+                "ordinary changes: deferred == immediate == Python after every change", "8 strings x 7 changes")
+    ev_cases = [("atan2(z,(-1))", "math.atan2(z,(-1))"), ("atan2(z,(-a))", "math.atan2(z,(-a))"), ("atan2((z*a),(-1))", "math.atan2((z*a),(-1))"),
+                ("(p^(p+p))+1", "((p**(p+p))+1.0)"), ("((p^(p+p))+n)-(p^(p+p))", "(((p**(p+p))+n)-(p**(p+p)))"), ("n^40", "(n**40.0)"),
+                ("(a+(z*n))", "(a+(z*n))"), ("atan2(z,(-1))*p^(p+p+1)", "(math.atan2(z,(-1.0))*(p**((p+p)+1.0)))")]
+    ev_changes = [("z", -0.0), ("a", -3.5), ("z", 0.0), ("p", 10.0), ("n", 3.0), ("p", 10), ("z", -0.0)]
+    for s, mirror in ev_cases:
+        env = mkenv()
+        try:
+            ex = env.madexpr(s)
+        except Exception:     # noqa
+            continue
+        # the Python side reads its OWN record of the assigned values (not the container the manager writes)
+        ns = copy.deepcopy(pyns(env))
+        scr = PRELUDE + SRC + f"import copy\nenv = mkenv()\ns = {s!r}; mirror = {mirror!r}\nex = env.madexpr(s)\nns = copy.deepcopy(pyns(env))\n"
+        for k, v in ev_changes:
+            env._vref[k] = v
+            ns[k] = v
+            scr += f"env._vref[{k!r}] = {v!r}; ns[{k!r}] = {v!r}\nvals = [num(val(ex))] + three(env, s, mirror, ns); print({k!r}, {v!r}, vals); assert agree(vals, True, nan_mirror(mirror, ns)), vals\n"
+            try:
+                d = num(val(ex))
+            except Exception as e2:     # noqa
+                d = type(e2).__name__
+            vals = three(env, s, mirror, ns)
+            rac.case((s, k, repr(v)), sample=dict(string=s, change=f"{k} = {v!r}"))
+            expct = nan_mirror(mirror, ns)
+            if not agree(vals, True, expct) or not agree([d, vals[1]], True, expct):
+                rac.fail(f"equal-valued {s} {k}={v!r}", f"C19 {s!r} after {k} = {v!r} (through the manager): expression built earlier / deferred / immediate / Python give {[d] + vals}",
+                         scr, "Manager.set_value")
+                break
     rac.section("precedence", "unparenthesised strings against the reading the grammar defines (rule nesting, left associativity, unary "
                 "sign binding tighter than ^)", "14 strings")
     for s, mirror in precedence_cases():
